@@ -183,6 +183,7 @@ func runC02(r *mon.Run) {
 		"Sqrt cases inside the hard-case class of known finding KF-C11-sqrt-hard-cases are attributed to it (see DESIGN.md)"}
 	r.Serial("pinned", func(t *mon.T) { pinnedC02(t, "flags") })
 	r.Parallel("flags", r.N(500000, 40000000), func(t *mon.T) { mixedFlagCase(t, "flags") })
+	r.Parallel("coincidence-lengths", int64(len(coincidenceExps))*r.N(2, 20), func(t *mon.T) { coincidenceArithCase(t, "flags") })
 	if !r.Quick() {
 		gridRun(r, "flags")
 	}
@@ -211,6 +212,7 @@ func runC07(r *mon.Run) {
 		x2, _ := dec.Parse("1000000000000002648720806956E-27")
 		transCase(t, "fit", "log10", dec.Ctx{P: 20, Emin: -1, Emax: 21, Mode: "half_down"}, x2, dec.D{})
 	})
+	r.Parallel("coincidence-lengths", int64(len(coincidenceExps))*r.N(2, 20), func(t *mon.T) { coincidenceArithCase(t, "fit") })
 	r.Parallel("fit", r.N(400000, 40000000), func(t *mon.T) {
 		if t.Rng.Chance(1, 5) {
 			// carry family: quotients/sums/roundings just below a power of ten
